@@ -66,7 +66,9 @@ private def handleOde (j : Json) : Except String Json := do
   let implTimes ← optAt j "stores" (fun s => getRatList s "times")
   let steps ← getArr j "steps"
   let oracle := implTimes.getD (List.replicate nt tmin)
-  match mkTimes method tmin tmax nt oracle with
+  let rar := (← optAt j "rar" (·.getBool?)).getD false
+  let ntStart ← optNat j "nt_start"
+  match mkTimesRar method tmin tmax nt rar ntStart oracle with
   | .error e =>
     -- a broken sampler contract is reported by Holds on the observed store, below
     let acc : Acc := {}
@@ -74,7 +76,7 @@ private def handleOde (j : Json) : Except String Json := do
       | some ts => acc.note 0 (Jinns.Holds.holdsC08Ode tmin tmax nt bt ts [])
       | none => acc
     pure (result (some (e, "init")) Json.null acc)
-  | .ok mtimes =>
+  | .ok (mtimes, ntEff) =>
     let ms := Json.mkObj [("times", jRats mtimes)]
     match implTimes with
     | none => pure (result (match sliceGuard nt bt with | .error e => some (e, "batch") | .ok _ => none) ms {})
@@ -90,7 +92,7 @@ private def handleOde (j : Json) : Except String Json := do
           let perm ← getNatList s "times_perm"
           let t ← getRatList s "t"
           let (o, ok) := applyPerm times perm
-          let r := Minibatch.next nt m o
+          let r := Minibatch.next ntEff m o
           m := r.1
           if !ok then acc := { acc with contract := false }
           if !(r.2 == t) then acc := { acc with agree := false }
@@ -170,14 +172,16 @@ private def handleStatio (j : Json) : Except String Json := do
   let a ← readArgs j
   let st ← readStores j
   let steps ← getArr j "steps"
-  match mkStatio a (oracleOf a st) with
+  let rar := (← optAt j "rar" (·.getBool?)).getD false
+  let nStart ← optNat j "n_start"
+  match mkStatioRar a rar nStart (oracleOf a st) with
   | .error e =>
     let acc : Acc := {}
     let acc := match st with
       | some s => acc.note 0 (holdsStatioStores a s)
       | none => acc
     pure (result (some (e, "init")) Json.null acc)
-  | .ok g =>
+  | .ok (g, nEff) =>
     let ms := Json.mkObj [("omega", jRatMat g.omega), ("border", jBorder g.border)]
     let guard := sliceGuard a.n a.b
     match st with
@@ -202,7 +206,7 @@ private def handleStatio (j : Json) : Except String Json := do
           let x ← getRatMat sj "x"
           let dx ← optAt sj "dx" cube
           let (o, ok) := applyPerm s.omega perm
-          let r := Minibatch.next a.n m o
+          let r := Minibatch.next nEff m o
           m := r.1
           if !ok then acc := { acc with contract := false }
           if !(r.2 == x) then acc := { acc with agree := false }
@@ -240,14 +244,17 @@ private def handleNonStatio (j : Json) : Except String Json := do
   let holdsStores (s : Stores) : Option String :=
     Jinns.Holds.holdsC08NonStatio a.mins a.maxs tmin tmax a.n a.nb nt a.b a.bb bt cart
       s.omega s.border2 s.border1 (s.times.getD []) []
-  match mkNonStatio a cart bt nt tmin tmax (oracleOf a st) otimes with
+  let rar := (← optAt j "rar" (·.getBool?)).getD false
+  let nStart ← optNat j "n_start"
+  let ntStart ← optNat j "nt_start"
+  match mkNonStatioRar a cart bt nt tmin tmax rar nStart ntStart (oracleOf a st) otimes with
   | .error e =>
     let acc : Acc := {}
     let acc := match st with
       | some s => acc.note 0 (holdsStores s)
       | none => acc
     pure (result (some (e, "init")) Json.null acc)
-  | .ok g =>
+  | .ok (g, nEff, ntEff) =>
     let ms := Json.mkObj [("omega", jRatMat g.statio.omega), ("border", jBorder g.statio.border),
       ("times", jRats g.times)]
     let guard : Except Err Unit := do sliceGuard a.n a.b; sliceGuard nt bt
@@ -284,7 +291,7 @@ private def handleNonStatio (j : Json) : Except String Json := do
           let (ob, ok3) := match bperm with
             | some p => applyPerm rows0 p
             | none => ([], true)
-          let r := Jinns.Cartesian.getBatch a.n fn nt ns (oo, ob, ot)
+          let r := Jinns.Cartesian.getBatch nEff fn ntEff ns (oo, ob, ot)
           ns := r.1
           if !(ok1 && ok2 && ok3) then acc := { acc with contract := false }
           if !(r.2.1 == tx && r.2.2 == tdx) then acc := { acc with agree := false }
